@@ -82,6 +82,10 @@ class CallMixin(object):
                         vals.add(None)
                 if len(vals) == 1 and None not in vals:
                     return vals.pop()
+            if coll[0] == "comp" and coll[2][0] == "nt":
+                # element of [T(...) for row in rows]: its fields are the
+                # comprehension's element expression
+                return self.get_attr(coll[2], attr, state, frame, node)
         if k == "merge":
             # attribute of a value merged over the callee's branches
             alts = tuple((pc, self.get_attr(v, attr, state, frame, node))
@@ -319,12 +323,20 @@ class CallMixin(object):
         return [(state, ("call", "<value>", (fn,) + tuple(args), ()))]
 
     def call_builtin(self, name, args, kwargs, state, frame, node):
+        if name in ("list", "tuple", "sorted", "set", "iter") and args and \
+                args[0][0] == "cursor":
+            args = [("rows", args[0][1])] + list(args[1:])
         if name in ("set", "list", "dict") and not args and not kwargs:
             if name == "dict":
                 return [(state, ("dictlit", ()))]
             return [(state, ("coll", self.site(frame, node), name))]
         if name == "dict" and not args:
             return [(state, ("kwdict", tuple(sorted(kwargs.items()))))]
+        if name == "dict" and len(args) == 1 and args[0][0] in ("kwdict", "dictlit"):
+            if args[0][0] == "kwdict":
+                items = tuple(args[0][1]) + tuple(sorted(kwargs.items()))
+                return [(state, ("kwdict", items))]
+            return [(state, args[0])]
         if name == "isinstance":
             return [(state, ("call", "isinstance", tuple(args), ()))]
         if name == "bool" and len(args) == 1:
@@ -464,6 +476,19 @@ class CallMixin(object):
         self.merges[term] = alts
         return term
 
+    def _pure_loop(self, loop_ev):
+        from .engine import flat_events
+        for alt in loop_ev["alts"]:
+            if alt["out"] not in ("normal", "continue", "break"):
+                return False
+            for x, _ in flat_events(alt["events"]):
+                if x["k"] in self.PURE_KINDS or x["k"] == "loop":
+                    continue
+                if x["k"] == "ext" and short_name(x["name"]) in self.PURE_EXT:
+                    continue
+                return False
+        return True
+
     PURE_KINDS = ("call", "ret", "index", "pure", "coll_add", "benign_if")
     PURE_EXT = ("os.urandom", "base64.b32encode", "json.dumps", "json.loads",
                 "log.msg", "random.choice", "random.randrange")
@@ -483,8 +508,8 @@ class CallMixin(object):
                     continue
                 if e["k"] == "ext" and short_name(e["name"]) in self.PURE_EXT:
                     continue
-                if e["k"] == "loop":
-                    return None
+                if e["k"] == "loop" and self._pure_loop(e):
+                    continue
                 return None
         alts = tuple((s.pc[len(pc0):], v) for (s, v) in out)
         alt_events = [s.events[n0:] for (s, v) in out]
@@ -584,9 +609,20 @@ class CallMixin(object):
             raise AnalysisError("no call site of %s found" % meth.qualname)
         out = []
         for (f, c) in sites:
-            if pidx >= len(c.args) or not isinstance(c.args[pidx], ast.Name):
+            if pidx >= len(c.args):
                 raise AnalysisError("listener argument shape not modelled in %s" % f.qualname)
-            cname = c.args[pidx].id
+            anode = c.args[pidx]
+            other = ("obj", f.cls, ("listener-conn",))
+            s = state if len(sites) == 1 else state.fork()
+            if isinstance(anode, ast.Attribute) and isinstance(anode.value, ast.Name) and \
+                    anode.value.id == "self" and self.repo.method(f.cls, anode.attr):
+                # a bound method of the registering connection
+                fi = self.repo.method(f.cls, anode.attr)
+                out.extend(self.call_function(fi, other, args, kwargs, s, frame, node))
+                continue
+            if not isinstance(anode, ast.Name):
+                raise AnalysisError("listener argument shape not modelled in %s" % f.qualname)
+            cname = anode.id
             fdef = None
             for n in ast.walk(f.node):
                 if isinstance(n, ast.FunctionDef) and n.name == cname and n is not f.node:
@@ -595,9 +631,7 @@ class CallMixin(object):
                 raise AnalysisError("listener closure %s not found in %s" % (cname, f.qualname))
             from .repo import FuncInfo
             fi = FuncInfo(f.module, f.cls, fdef, parent=f)
-            other = ("obj", f.cls, ("listener-conn",))
             synth = Frame(f, other, frame.depth, cells=None)
-            s = state if len(sites) == 1 else state.fork()
             s.envs[synth.fid] = {"self": other}
             res = self.call_function(fi, None, args, kwargs, s, frame, node,
                                      cells=synth)
